@@ -100,14 +100,19 @@ XVerdict(e) ==
      ELSE <<"ACCEPT", "", "", XTags(e)>>
 
 \* ---- joint ------------------------------------------------------------------------
-JRec(e, s, metric, pn, pd) ==
-  IF e.mode = "thr" THEN RecFixed(metric, Scalar(s), Scalar(s), Zeros(Len(s)), Zeros(Len(s)), 1, pn, pd)
-  ELSE RecRate(metric, Scalar(s), Scalar(s), pn, pd)
-ExpJR(e) == Joint(JRec(e, e.x, e.mx, e.p1n, e.p1d), JRec(e, e.y, e.my, e.p2n, e.p2d), e.lag)
+\* each series is embedded with its own dimension (delay 1) and both are pruned to the shorter number of states
+JEmb(s, d) == IF d = 1 THEN Scalar(s) ELSE Embed(s, d, 1)
+JLen(e) == Min2(Len(JEmb(e.x, e.dx)), Len(JEmb(e.y, e.dy)))
+JTraj(e, s, d) == SubSeq(JEmb(s, d), 1, JLen(e))
+JRec(e, T, metric, pn, pd) ==
+  IF e.mode = "thr" THEN RecFixed(metric, T, T, Zeros(Len(T)), Zeros(Len(T)), 1, pn, pd)
+  ELSE RecRate(metric, T, T, pn, pd)
+ExpJR(e) == Joint(JRec(e, JTraj(e, e.x, e.dx), e.mx, e.p1n, e.p1d), JRec(e, JTraj(e, e.y, e.dy), e.my, e.p2n, e.p2d), e.lag)
 JTags(e) == "j," \o e.mode \o (IF e.lag # 0 THEN ",lag" ELSE "")
-            \o (IF Len(e.x) - Abs(e.lag) = 1 THEN ",single_state" ELSE "")
+            \o (IF JLen(e) - Abs(e.lag) = 1 THEN ",single_state" ELSE "")
+            \o (IF e.dx + e.dy > 2 THEN ",embedded" ELSE "") \o (IF e.mx # e.my THEN ",two_metrics" ELSE "")
 JOne(e, o, name, net) ==
-  LET n == Len(e.x) - Abs(e.lag) IN
+  LET n == JLen(e) - Abs(e.lag) IN
   IF o.exc # "" THEN <<"Applicable", name \o ":" \o o.exc>>
   ELSE IF ~SquareOf(o.JR, n) THEN <<"Sizes", name \o ".JR">>
   ELSE IF o.JR # ExpJR(e) THEN <<"Composition", name \o ".recurrence_matrix">>
